@@ -1,6 +1,8 @@
 use crate::report::Report;
 use crate::Ctx;
 
+pub mod c01;
+pub mod c04;
 pub mod c08;
 pub mod c09;
 pub mod c10;
@@ -8,14 +10,18 @@ pub mod c11;
 pub mod c16;
 pub mod c20;
 pub mod probe;
+pub mod probe2;
 
 pub fn run(engine: &str, ctx: &Ctx) -> Option<Report> {
     let mut rep = Report::new(engine);
     match engine {
+        "c01" => c01::run(ctx, &mut rep),
+        "c04" => c04::run(ctx, &mut rep),
         "c08" => c08::run(ctx, &mut rep),
         "c09" => c09::run(ctx, &mut rep),
         "c10" => c10::run(ctx, &mut rep),
         "c11" => c11::run(ctx, &mut rep),
+        "probe2" => probe2::run(ctx, &mut rep),
         "probe" => probe::run(ctx, &mut rep),
         "c16" => c16::run(ctx, &mut rep),
         "c20" => c20::run(ctx, &mut rep),
